@@ -845,6 +845,12 @@ class C09(Property):
             if ends != want:
                 return Judgement(True, False, in_scope=scope, tags=tuple(tags),
                                  detail=f"Feature.start/end {ends} are not the gene's ends in transcription order {want}")
+        if drv.get("unrepresentable") and drv.get("standard_gene") and scope and loc["parts"][0][2] in (1, -1):
+            # theorems tta_marker_{forward,reverse}_standard_gene / annotation_standard_gene_never_refused
+            return Judgement(False, False, in_scope=scope, tags=tuple(tags),
+                             detail="a standard-order gene produced a location the Feature constructor refuses")
+        if drv.get("standard_gene"):
+            tags.append("standard-gene")
         if kind == "cds_table":
             return self._judge_cds_table(case, obs, drv, scope, tags)
         if kind == "record_rt":
